@@ -844,6 +844,15 @@ class Printer:
             self.called[fn] += 1
             self.fire('call:std-sort')
             return '%s(&%s)' % (fn, self.e(vb))
+        if nm == 'contains' and len(args) == 2 and self.is_vec_expr(args[0]) and nm not in self.callmap:
+            # nifly's contains(container, value) == (find(container, value) != end): the search loop itself, bounded units only
+            if not self.unit.get('unwind'):
+                self.brk('contains() over a vector needs a bounded unit (the search loop is executed)', n)
+            fn = '%s_find' % self.ctype_of(args[0])
+            self.called[fn] += 1
+            self.fire('call:contains-as-find')
+            vt_ = self.e(args[0])
+            return '(%s(&%s, %s) != %s.size)' % (fn, vt_, self.e(self.skip(args[1])), vt_)
         if nm == 'distance' and len(args) == 2 and self.iter_local(args[1]):
             nm_, v_ = self.iter_local(args[1])
             if self.iter_bound(args[0], 'begin') == v_:
